@@ -357,7 +357,8 @@ struct C08 : Scenario {
                 accept[pay[last].step].push_back(&pay[last]);
             } else {
                 // crash_continue: only the steps below the in-flight one are judged; their bytes were complete before the crash
-                for (auto& kv : pre) if (kv.first < pay[last].step) accept[kv.first].push_back(&kv.second);
+                // (a continuing process may also write such steps later: every payload the history ever puts there is acceptable)
+                for (size_t k = 0; k < pay.size(); ++k) if (k != last && pay[k].step < pay[last].step) accept[pay[k].step].push_back(&pay[k]);
             }
             // syscalls of the in-flight write, measured on the fault-free twin (op index == write index)
             const long sites = fs::mut_calls(static_cast<int>(last));
